@@ -119,6 +119,14 @@ func VH_C06_commit() {
 	exists, _ := d.repo.RefExist(ref)
 	var got []Operation
 	if exists {
+		// before anything is read (reading witnesses clocks): the reopened clocks are not
+		// lower than the time stored at the entity's head
+		if hh, herr := d.repo.ResolveRef(ref); herr == nil {
+			if hc, cerr2 := d.repo.ReadCommit(hh); cerr2 == nil {
+				_, het, _ := readOperationPackClock(d.repo, hc)
+				rt.Assert(uint64(d.repo.ClockTime(editClockName())) >= uint64(het), "reopened-clock-not-lower-than-stored")
+			}
+		}
 		after, err := read(vhDef, vhWrap, d.repo, nil, ref)
 		rt.Assert(err == nil, "entity-readable-after-crash")
 		if err != nil {
@@ -199,6 +207,12 @@ func VH_C06_merge() {
 		rt.Assert(res.Err == nil, "uninterrupted-merge-succeeds")
 	}
 	rt.Assert(vhReopen(d) == nil, "repository-opens-after-crash")
+	if hh, herr := d.repo.ResolveRef(vhLocalRef); herr == nil {
+		if hc, cerr2 := d.repo.ReadCommit(hh); cerr2 == nil {
+			_, het, _ := readOperationPackClock(d.repo, hc)
+			rt.Assert(uint64(d.repo.ClockTime(editClockName())) >= uint64(het), "reopened-clock-not-lower-than-stored")
+		}
+	}
 	after, err := read(vhDef, vhWrap, d.repo, nil, vhLocalRef)
 	rt.Assert(err == nil, "entity-readable-after-crash")
 	if err != nil {
